@@ -11,6 +11,7 @@
 #include "memory_arena.hpp"
 #include "static_allocator.hpp"
 #include "virtual_memory.hpp"
+#include "tracking.hpp"
 #include "detail/free_list.hpp"
 #include "detail/small_free_list.hpp"
 #include <vector>
@@ -101,6 +102,47 @@ template <> struct ops<iteration_allocator<2, up_alloc>>
     static bool take(T& t, handle& h, std::size_t n) { std::size_t sz = 1 + n % 40; h.p = t.try_allocate(sz, 8); h.size = sz; return h.p != nullptr; }
     static void give(T&, handle&) {}
     static std::size_t figure(T& t) { return t.capacity_left(); }
+};
+// ---- a deeply tracked stack: the tracker object travels inside the allocator object, and the block source deep inside holds a
+// pointer to it.  After every move that pointer must refer to the tracker of the object that owns the memory now: an event
+// delivered to the tracker of a moved-from (or destroyed) object is reported as a "corrupt" line
+struct live_tracker
+{
+    static std::vector<const live_tracker*>& reg() { static std::vector<const live_tracker*> r; return r; }
+    static const live_tracker*& last_growth() { static const live_tracker* p = nullptr; return p; }
+    static const live_tracker*& last_node() { static const live_tracker* p = nullptr; return p; }
+    static long& dangling() { static long d = 0; return d; }
+    live_tracker() { reg().push_back(this); }
+    live_tracker(live_tracker&&) noexcept { reg().push_back(this); }
+    live_tracker& operator=(live_tracker&&) noexcept { return *this; }
+    ~live_tracker() { auto it = std::find(reg().begin(), reg().end(), this); if (it != reg().end()) reg().erase(it); }
+    void seen() const noexcept { if (std::find(reg().begin(), reg().end(), this) == reg().end()) ++dangling(); }
+    void on_node_allocation(void*, std::size_t, std::size_t) noexcept { seen(); last_node() = this; }
+    void on_array_allocation(void*, std::size_t, std::size_t, std::size_t) noexcept { seen(); last_node() = this; }
+    void on_node_deallocation(void*, std::size_t, std::size_t) noexcept { seen(); }
+    void on_array_deallocation(void*, std::size_t, std::size_t, std::size_t) noexcept { seen(); }
+    void on_allocator_growth(void*, std::size_t) noexcept { seen(); last_growth() = this; }
+    void on_allocator_shrinking(void*, std::size_t) noexcept { seen(); }
+};
+using tracked_stack_t = deeply_tracked_allocator<live_tracker, memory_stack<up_alloc>>;
+template <> struct ops<tracked_stack_t>
+{
+    using T = tracked_stack_t; static constexpr bool lifo = true; static constexpr bool source = false;
+    static T* make(void* s) { return new (s) T(live_tracker{}, typename T::allocator_type(256, tagged())); }
+    static void verify(const char* what) { if (live_tracker::dangling()) { std::printf("corrupt tracker: %ld event(s) of a live allocator were delivered to the tracker of a destroyed object (%s)\n", live_tracker::dangling(), what); live_tracker::dangling() = 0; } }
+    static bool take(T& t, handle& h, std::size_t n)
+    {
+        std::size_t sz = 1 + n % 150; std::size_t blocks = t.get_allocator().arena_.size();
+        live_tracker::last_growth() = nullptr; live_tracker::last_node() = nullptr;
+        h.p = t.allocate_node(sz, 8); h.size = sz;
+        if (live_tracker::last_node() != &t.get_tracker()) std::printf("corrupt tracker: the allocation was not reported to the tracker of the object that owns the memory\n");
+        if (t.get_allocator().arena_.size() > blocks && live_tracker::last_growth() != &t.get_tracker())
+            std::printf("corrupt tracker: the growth of the allocator was %s\n", live_tracker::last_growth() ? "reported to the tracker of another (moved-from) object" : "not reported to any tracker");
+        verify("allocation");
+        return true;
+    }
+    static void give(T&, handle&) {}
+    static std::size_t figure(T& t) { verify("capacity query"); return t.get_allocator().capacity_left(); }
 };
 // ---- arenas: the handle is a block
 template <class BA, bool C> struct ops<memory_arena<BA, C>>
@@ -286,6 +328,7 @@ int main()
     if (type == "coll_small") return run<memory_pool_collection<small_node_pool, identity_buckets, up_alloc>>(high, header);
     if (type == "stack") return run<memory_stack<up_alloc>>(high, header);
     if (type == "stack_fixed") return run<memory_stack<fixed_block_allocator<up_alloc>>>(high, header);
+    if (type == "stack_tracked") return run<tracked_stack_t>(high, header);
     if (type == "iteration") return run<iteration_allocator<2, up_alloc>>(high, header);
     if (type == "arena_cached") return run<memory_arena<growing_block_allocator<up_alloc>, true>>(high, header);
     if (type == "arena_uncached") return run<memory_arena<growing_block_allocator<up_alloc>, false>>(high, header);
